@@ -87,7 +87,7 @@ def hex32(n):
     return '%032x' % n
 
 
-def predicted_results(results, model):
+def predicted_results(results, model, with_urgency=False):
     """the interpreter's results of a call sequence in the replay binary's output format (ids as 32 hex digits)"""
     def ev(t):
         v = show(t, model)
@@ -95,8 +95,18 @@ def predicted_results(results, model):
     out = []
     for kind, r in results:
         if kind == 'add_version':
+            if r.variant != 0:
+                out.append({'err': '*'})
+                continue
             res = r.fields[0].fields[0]
-            out.append({'accepted': hex32(ev(res.fields[0]))} if res.variant == 0 else {'expected': hex32(ev(res.fields[0]))})
+            d = {'accepted': hex32(ev(res.fields[0]))} if res.variant == 0 else {'expected': hex32(ev(res.fields[0]))}
+            if with_urgency and res.variant == 0:
+                d['urgency'] = r.fields[0].fields[1].variant
+            out.append(d)
+        elif r.variant != 0:
+            out.append({'err': '*'})
+        elif kind == 'add_snapshot':
+            out.append('stored')
         elif kind == 'get_child_version':
             g = r.fields[0]
             if g.variant == 0:
@@ -105,15 +115,21 @@ def predicted_results(results, model):
                 out.append({'version': {'id': hex32(ev(g.fields[0])), 'parent': hex32(ev(g.fields[1])), 'bytes': [ev(b) for b in deref(g.fields[2]).items]}})
         elif kind == 'get_snapshot':
             o = r.fields[0]
-            out.append('none' if o.variant == 0 else {'snapshot': '?'})
+            if o.variant == 0:
+                out.append('none')
+            else:
+                ver, pl = o.fields[0].fields
+                out.append({'snapshot': {'version': hex32(ev(ver)), 'bytes': [ev(b) for b in deref(pl).items]}})
     return out
 
 
 def compare_calls(pred, out):
     if not isinstance(out, dict) or 'results' not in out:
         return False, {'replay_output': str(out)[:400]}
-    a = canon({'results': pred['results'], 'walk': pred['walk']})
-    b = canon({'results': out['results'], 'walk': out['walk']})
+    def norm(rs):
+        return [{'err': '*'} if isinstance(r, dict) and 'err' in r else r for r in rs]
+    a = canon({'results': norm(pred['results']), 'walk': pred['walk']})
+    b = canon({'results': norm(out['results']), 'walk': out['walk']})
     if a == b:
         return True, None
     return False, {'predicted': _json.loads(a), 'real': _json.loads(b)}
